@@ -24,6 +24,7 @@
        closed length for the midpoint put in front of vertex 0), bisected_spec_full (all of it, ℝ)
 -/
 import PW.Model.ArcLength
+import PW.Gen.ArcLen
 import PW.Lemmas.Vec
 import PW.Lemmas.ArcLength
 import Mathlib.Tactic.Ring
@@ -859,5 +860,174 @@ theorem bisected_spec_full (p : Polyline ℝ) (segIdx : List Int)
 example : ∃ (p : Polyline ℝ) (segIdx : List Int), segIdx ≠ [] ∧ ∀ i ∈ segIdx, -(p.numE : Int) ≤ i ∧ i < p.numE :=
   ⟨⟨[⟨0, 0, 0⟩, ⟨3, 0, 0⟩, ⟨3, 4, 0⟩], true⟩, [2, -1, 0], by simp, by
     simp [Polyline.numE, Polyline.edges, edgesFor, Polyline.numV]⟩
+
+/-! ## what the model takes from the source
+
+`harness/translate/c08.py` reads the comparison operators, index offsets, rounding function, slices and formulas of
+`point_along_path`, `subdivided_by_length`, `with_segments_bisected`, `segment_lengths`, `total_length`
+(`polliwog/polyline/_polyline_object.py`) and of `subdivide_segment`, `subdivide_segments`, `path_centroid`
+(`polliwog/segment/_segment_functions.py`) out of the source text into `PW/Gen/ArcLen.lean` on every run (local names
+replaced by what they were assigned; DESIRED, CUM, INDEX, NEEDED, ES, INSERTS, COUNTS, SRC, DIFFS, DISTS, UNIT are
+structural labels).  The theorems below state that each generated value is the one the hand-written model
+`PW/Model/ArcLength.lean` was written from — and, where the literal is a Lean literal of the model, that the model
+computes with exactly the generated value — so that an edit of one of them in the source breaks a proof obligation. -/
+
+section GenTies
+variable {K : Type} [Field K] [LinearOrder K] [IsStrictOrderedRing K]
+
+/-- `point_along_path` refuses a fraction `< 0` or `> 1` with `ValueError`: the model's `pointAlongPath` tests exactly
+    the generated comparisons. -/
+theorem gen_fraction_range [Sqrt K] :
+    (PW.Gen.ArcLen.fracLowCmp = .lt ∧ PW.Gen.ArcLen.fracLowRhs = 0 ∧ PW.Gen.ArcLen.fracHighCmp = .gt ∧
+      PW.Gen.ArcLen.fracHighRhs = 1 ∧ PW.Gen.ArcLen.fracRaises = "ValueError") ∧
+    PW.Gen.ArcLen.fracCondSrc = "np.any(fraction_of_total < 0) or np.any(fraction_of_total > 1)" ∧
+    ∀ (p : Polyline K) (fs : List K), pointAlongPath p fs =
+      if fs.any (fun f => PW.Gen.ArcLen.fracLowCmp.test f ((PW.Gen.ArcLen.fracLowRhs : Int) : K) ||
+                          PW.Gen.ArcLen.fracHighCmp.test f ((PW.Gen.ArcLen.fracHighRhs : Int) : K))
+      then .error .ValueError
+      else if p.v.isEmpty then .error .IndexError
+      else if p.numE == 0 && !fs.isEmpty then .error .IndexError
+      else .ok (fs.map (pointAlongOne p)) := by
+  refine ⟨⟨by decide, by decide, by decide, by decide, rfl⟩, rfl, ?_⟩
+  intro p fs
+  unfold pointAlongPath
+  simp [PW.Gen.Cmp.test, PW.Gen.ArcLen.fracLowCmp, PW.Gen.ArcLen.fracLowRhs, PW.Gen.ArcLen.fracHighCmp,
+    PW.Gen.ArcLen.fracHighRhs]
+
+/-- `point_along_path`: `desired = total_length * f`, `cumulative = cumsum([0, *lengths])`,
+    `index = argmax(cumulative > desired) - 1`, the point on that segment, overwritten by the end of the path when
+    `desired >= cumulative[-1]`: the model's `pointAlongOne` computes with exactly the generated operators / offsets. -/
+theorem gen_point_along_path [Sqrt K] :
+    (PW.Gen.ArcLen.desiredSrc = "fraction_of_total * self.total_length" ∧
+      PW.Gen.ArcLen.cumSrc = "np.cumsum([0, *self.segment_lengths])" ∧ PW.Gen.ArcLen.cumStart = 0 ∧
+      PW.Gen.ArcLen.searchCmp = .lt ∧ PW.Gen.ArcLen.searchLhs = "DESIRED" ∧
+      PW.Gen.ArcLen.searchRhs = "CUM.reshape(-1, 1)" ∧
+      PW.Gen.ArcLen.indexCoef = 1 ∧ PW.Gen.ArcLen.indexOffset = -1 ∧ PW.Gen.ArcLen.indexIsArgmax = true ∧
+      PW.Gen.ArcLen.endCmp = .le ∧ PW.Gen.ArcLen.endLhs = "CUM[-1]" ∧ PW.Gen.ArcLen.endRhs = "DESIRED") ∧
+    PW.Gen.ArcLen.resultSrc =
+      "(DESIRED - CUM[INDEX]).reshape(-1, 1) * vg.normalize(self.segment_vectors[INDEX]) + self.v[INDEX]" ∧
+    PW.Gen.ArcLen.endValueSrc = "self.v[0] if self.is_closed else self.v[-1]" ∧
+    ∀ (p : Polyline K) (f : K), pointAlongOne p f =
+      (let desired := totalLength p * f
+       let cum := cumFrom ((PW.Gen.ArcLen.cumStart : Int) : K) (segmentLengths p)
+       let j := argmaxBool (cum.map fun c => PW.Gen.ArcLen.searchCmp.test desired c)
+       let i : Int := PW.Gen.ArcLen.indexCoef * (j : Int) + PW.Gen.ArcLen.indexOffset
+       let r := pyGet p.v i V3.zero +
+         V3.smul (desired - pyGet cum i 0) (V3.normalize (pyGet p.segmentVectors i V3.zero))
+       if PW.Gen.ArcLen.endCmp.test (pyGet cum (-1) 0) desired then
+         (if p.closed then pyGet p.v 0 V3.zero else pyGet p.v (-1) V3.zero)
+       else r) := by
+  refine ⟨⟨rfl, rfl, by decide, by decide, rfl, rfl, by decide, by decide, by decide, by decide, rfl, rfl⟩, rfl, rfl, ?_⟩
+  intro p f
+  unfold pointAlongOne cumLengths
+  simp [PW.Gen.Cmp.test, PW.Gen.ArcLen.cumStart, PW.Gen.ArcLen.searchCmp, PW.Gen.ArcLen.indexCoef,
+    PW.Gen.ArcLen.indexOffset, PW.Gen.ArcLen.endCmp, sub_eq_add_neg]
+
+end GenTies
+
+section GenTiesFloor
+variable {K : Type} [Field K] [LinearOrder K] [IsStrictOrderedRing K] [FloorRing K] [Sqrt K]
+attribute [local instance] fieldRounding
+
+/-- `subdivided_by_length`: an edge gets `np.ceil(length / max_length)` parts and is subdivided when selected and that
+    number is `> 1`; the inserted points are `subdivide_segment(a, b, n, endpoint=False)[1:]`: the model's `numNeeded`
+    and `edgeInserts` compute with exactly the generated operator, bound, flag and slice. -/
+theorem gen_subdivide_rule :
+    (PW.Gen.ArcLen.roundingFn = "np.ceil" ∧ PW.Gen.ArcLen.quotientSrc = "self.segment_lengths / max_length" ∧
+      PW.Gen.ArcLen.subdivideCmp = .gt ∧ PW.Gen.ArcLen.subdivideRhs = 1 ∧ PW.Gen.ArcLen.insertEndpoint = false ∧
+      PW.Gen.ArcLen.insertDropFirst = 1) ∧
+    PW.Gen.ArcLen.maskSrc =
+      "NEEDED > 1 and (np.ones(self.num_e, dtype=bool) if edges_to_subdivide is None else edges_to_subdivide)" ∧
+    PW.Gen.ArcLen.insertCallSrc =
+      "subdivide_segment(self.v[self.e[old_e_index][0]], self.v[self.e[old_e_index][1]], int(NEEDED[old_e_index]), endpoint=False)[1:]" ∧
+    PW.Gen.ArcLen.insertLoopSrc = "ES" ∧
+    (∀ len maxLen : K, numNeeded len maxLen = ⌈len / maxLen⌉) ∧
+    ∀ (maxLen : K) (sel : Bool) (a b : V3 K), edgeInserts maxLen sel a b =
+      if sel && PW.Gen.ArcLen.subdivideCmp.test (numNeeded (ArcLength.dist a b) maxLen) PW.Gen.ArcLen.subdivideRhs then
+        ((linspace01 (numNeeded (ArcLength.dist a b) maxLen).toNat PW.Gen.ArcLen.insertEndpoint).map
+          (lerp a b)).drop PW.Gen.ArcLen.insertDropFirst
+      else [] := by
+  refine ⟨⟨rfl, rfl, by decide, by decide, by decide, by decide⟩, rfl, rfl, rfl, fun _ _ => rfl, ?_⟩
+  intro maxLen sel a b
+  rfl
+
+end GenTiesFloor
+
+/-- `subdivided_by_length`, assembly: the vertices are split at `ES + 1` and interleaved with the inserted points; the
+    index offsets count the inserted points per edge, leaving out the closing edge (`[:-1]`) of a closed polyline
+    (the model's `interleave`, `subdividedIndices`). -/
+theorem gen_subdivide_assembly :
+    PW.Gen.ArcLen.splitCoef = 1 ∧ PW.Gen.ArcLen.splitOffset = 1 ∧ PW.Gen.ArcLen.samePolyline = true ∧
+    PW.Gen.ArcLen.assemblySrc =
+      "Polyline(is_closed=self.is_closed, v=np.concatenate(list(itertools.chain(*zip(np.vsplit(self.v, ES + 1), INSERTS + [np.empty((0, 3), dtype=self.POSITION_DTYPE)])))))" ∧
+    PW.Gen.ArcLen.countsSrc = "_set(np.zeros(self.num_e, dtype=np.int64), _0[ES], [len(vs) for vs in INSERTS])" ∧
+    PW.Gen.ArcLen.indicesSrc =
+      "np.arange(self.num_v) + np.sum(np.tril(np.broadcast_to(np.concatenate([np.zeros(1, dtype=np.int64), COUNTS[:-1] if self.is_closed else COUNTS]), (self.num_v, self.num_v))), axis=1)" :=
+  ⟨by decide, by decide, by decide, rfl, rfl, rfl⟩
+
+section GenTies2
+variable {K : Type} [Field K] [LinearOrder K] [IsStrictOrderedRing K]
+
+/-- `subdivide_segment`: `TypeError` unless `num_points` is an int, `ValueError` when `num_points < 2`, then
+    `(p2 - p1) * np.linspace(0, 1, num, endpoint)[:, None] + p1`: the model's `subdivideSegment` tests exactly the
+    generated comparison, and `linspace01` runs from the generated start to the generated stop. -/
+theorem gen_subdivide_segment :
+    (PW.Gen.ArcLen.numPointsTypeSrc = "not isinstance(num_points, int)" ∧ PW.Gen.ArcLen.numPointsCmp = .lt ∧
+      PW.Gen.ArcLen.numPointsLhs = "num_points" ∧ PW.Gen.ArcLen.numPointsRhs = 2 ∧
+      PW.Gen.ArcLen.numPointsRaises = ["TypeError", "ValueError"] ∧
+      PW.Gen.ArcLen.linspaceStart = 0 ∧ PW.Gen.ArcLen.linspaceStop = 1) ∧
+    PW.Gen.ArcLen.subdivideSegmentSrc = "(-p1 + p2) * LINSPACE[:, np.newaxis] + p1" ∧
+    (∀ (isInt : Bool) (num : Int) (endpoint shapesOk : Bool) (p1 p2 : V3 K),
+      subdivideSegment isInt num endpoint shapesOk p1 p2 =
+        if !isInt then .error .TypeError
+        else if PW.Gen.ArcLen.numPointsCmp.test num PW.Gen.ArcLen.numPointsRhs then .error .ValueError
+        else if !shapesOk then .error .ValueError
+        else .ok ((linspace01 num.toNat endpoint).map (lerp p1 p2))) ∧
+    linspace01 (K := K) 2 true =
+      [((PW.Gen.ArcLen.linspaceStart : Int) : K), ((PW.Gen.ArcLen.linspaceStop : Int) : K)] := by
+  refine ⟨⟨rfl, by decide, rfl, by decide, by decide, by decide, by decide⟩, rfl, ?_, ?_⟩
+  · intro isInt num endpoint shapesOk p1 p2
+    unfold subdivideSegment
+    simp [PW.Gen.Cmp.test, PW.Gen.ArcLen.numPointsCmp, PW.Gen.ArcLen.numPointsRhs]
+  · simp [linspace01, natK, List.range_succ, PW.Gen.ArcLen.linspaceStart, PW.Gen.ArcLen.linspaceStop]
+
+/-- `subdivide_segments`: `unitds = diffs / dists`, set to `0.0` where `dists == 0`; rows `v[i] + unit * (width * k)`;
+    last row `v[-1]`: the model's `subdivideOne` tests exactly the generated comparison and stores the generated value. -/
+theorem gen_subdivide_segments [Sqrt K] :
+    (PW.Gen.ArcLen.zeroLenCmp = .eq ∧ PW.Gen.ArcLen.zeroLenRhs = 0 ∧ PW.Gen.ArcLen.zeroLenValue = 0) ∧
+    (PW.Gen.ArcLen.srcSrc = "np.arange(len(v) - 1)" ∧ PW.Gen.ArcLen.diffsSrc = "v[SRC + 1] - v[SRC]" ∧
+      PW.Gen.ArcLen.distsSrc = "np.sqrt(np.sum(np.square(DIFFS), axis=1))" ∧
+      PW.Gen.ArcLen.unitSrc = "DIFFS / DISTS[:, np.newaxis]" ∧ PW.Gen.ArcLen.lastRowSrc = "v[-1]") ∧
+    PW.Gen.ArcLen.filledSrc =
+      "((DISTS / num_subdivisions)[:, np.newaxis] * np.arange(0, num_subdivisions)).flatten()[:, np.newaxis] * np.repeat(UNIT, num_subdivisions, axis=0) + np.repeat(v[:-1], num_subdivisions, axis=0)" ∧
+    ∀ (num : Nat) (a b : V3 K), subdivideOne num a b =
+      (let d := b - a
+       let len := V3.norm d
+       let unit := if PW.Gen.ArcLen.zeroLenCmp.test len ((PW.Gen.ArcLen.zeroLenRhs : Int) : K)
+         then (⟨((PW.Gen.ArcLen.zeroLenValue : Int) : K), ((PW.Gen.ArcLen.zeroLenValue : Int) : K),
+           ((PW.Gen.ArcLen.zeroLenValue : Int) : K)⟩ : V3 K) else V3.sdiv d len
+       let width := len / natK num
+       (List.range num).map fun k => a + V3.smul (width * natK k) unit) := by
+  refine ⟨by decide, ⟨rfl, rfl, rfl, rfl, rfl⟩, rfl, ?_⟩
+  intro num a b
+  unfold subdivideOne
+  simp [PW.Gen.Cmp.test, PW.Gen.ArcLen.zeroLenCmp, PW.Gen.ArcLen.zeroLenRhs, PW.Gen.ArcLen.zeroLenValue, V3.zero]
+
+end GenTies2
+
+/-- lengths, centroid and `with_segments_bisected` (refused with `ValueError` unless `np.ndim(segment_indices) == 1`;
+    midpoints `segments[idx].mean(axis=1)` inserted before `e[idx][:, 1]`): the expressions the model's
+    `segmentLengths`, `totalLength`, `pathCentroid`, `withSegmentsBisected` were written from. -/
+theorem gen_lengths_centroid_bisect :
+    PW.Gen.ArcLen.segmentLengthsSrc = "vg.euclidean_distance(self.segments[:, 0], self.segments[:, 1])" ∧
+    PW.Gen.ArcLen.totalLengthSrc = "np.sum(self.segment_lengths)" ∧
+    PW.Gen.ArcLen.polylineCentroidSrc = "path_centroid(self.segments)" ∧
+    PW.Gen.ArcLen.pathCentroidSrc =
+      "np.average(np.average(segments, axis=1), axis=0, weights=vg.euclidean_distance(segments[:, 0], segments[:, 1]))" ∧
+    (PW.Gen.ArcLen.bisectDimCmp = .ne ∧ PW.Gen.ArcLen.bisectDimLhs = "np.ndim(segment_indices)" ∧
+      PW.Gen.ArcLen.bisectDimRhs = 1 ∧ PW.Gen.ArcLen.bisectRaises = "ValueError") ∧
+    PW.Gen.ArcLen.bisectSrc =
+      "self.with_insertions(indices=self.e[segment_indices][:, 1], points=self.segments[segment_indices].mean(axis=1), ret_new_indices=ret_new_indices)" :=
+  ⟨rfl, rfl, rfl, rfl, ⟨by decide, rfl, by decide, rfl⟩, rfl⟩
 
 end PW.C08
